@@ -351,6 +351,12 @@ func (x *Exec) Do(op Op) error {
 			if err := os.Rename(filepath.Join(dir, e.Name()), target); err != nil {
 				return infra("linkout: %v", err)
 			}
+			// (the copy kept elsewhere carries a note of its own: whoever writes through the link changes it,
+			// even when the bytes gengo generates are the same as before)
+			if fh, err := os.OpenFile(target, os.O_APPEND|os.O_WRONLY, 0); err == nil {
+				_, _ = fh.WriteString("\n// kept in _linked/ and linked into the package\n")
+				_ = fh.Close()
+			}
 			rel, err := filepath.Rel(dir, target)
 			if err != nil {
 				return infra("linkout: %v", err)
